@@ -33,6 +33,9 @@ ASSUMPTIONS = [
     'snomed_mapping enters the theorems as an arbitrary function `retired s v`',
     'Python str hash enters as an arbitrary function h; len(str) is the number of code points (= Lean String.length)',
     'deepcopy yields a new object with equal content (exercised on every from_dataset(copy=True) case)',
+    'arguments ending in a padding character (blank, NUL) do not survive a written file - pydicom`s reader strips them (theorem file_roundtrip, '
+    'counterexample_trailing_blank_through_file, stream file-strings): the read-back-unchanged clause through files is claimed for arguments '
+    'without trailing padding; in memory such arguments are kept as they are',
     'what counts as a URN or URL is what the constructor tests (prefix "urn:" or "://" inside); the oracle only uses values that are '
     'unambiguously one or the other',
 ]
